@@ -130,8 +130,8 @@ add("C38", "c_misc",
     text="DecodeFileID(EncodeFileID(x)) == x; any string DecodeFileID accepts re-encodes and decodes to the same projection; no panic.",
     note="Reference RLE / serializer used for classification and diagnostics only.")
 add("C39", "c_misc",
-    [T("TestC39Messages", 20000, 200000), T("TestC39Dialogs", 20000, 200000)],
-    rule="histories of N in 0..60 messages (ids strictly descending with gaps) / dialogs (distinct (date, top id, peer)), page size 1..N+1, exact multiples of the page size forced in ~1/3, response kinds full/slice/channelMessages, Iter/ForEach/Collect, GetHistory/Search; fake server with Telegram offset semantics over TL-encoded responses. non-trivial = N > page size; distinct by history+page+kind",
+    [T("TestC39Messages", 20000, 200000), T("TestC39Dialogs", 20000, 200000), T("TestC39Interrupted", 20000, 200000)],
+    rule="histories of N in 0..60 messages (ids strictly descending with gaps) / dialogs (distinct (date, top id, peer)), page size 1..N+1, exact multiples of the page size forced in ~1/3, response kinds full/slice/channelMessages, Iter/ForEach/Collect, GetHistory/Search; fake server with Telegram offset semantics over TL-encoded responses; TestC39Interrupted: a failing request at a drawn index or the context ending after a drawn number of items (the yielded list must be a prefix, and a clean end is allowed only after the last item). non-trivial = N > page size / an interruption that was reported; distinct by history+page+kind",
     technique="model-based PBT (rapid): iterator output vs. the server's list",
     text="The yielded sequence equals the history exactly (order, no duplicate, no omission); Next stays false afterwards.",
     note="Server offset_date semantics of getHistory are not exercised.")
@@ -226,9 +226,9 @@ add("C23", "c_mtproto",
     note="When handling returns an error (malformed sibling, duplicate result) the client drops the rest of that container; delivery of the siblings is not asserted.",
     fuzz=[])
 add("C41", "c_mtproto",
-    [T("TestC41Salts", 30000, 300000), T("TestC41Conn", 10000, 80000, env=CONN)],
-    rule="(a) salts.Salts under store (fresh, re-sent identical triples, already expired, far future) / clock advance / reset / get with a fixed lookahead, against a map model; (b) a live connection: new_session_created salt, future_salts answers with overlapping / duplicated / expired windows, virtual sleeps up to 3 h, invokes, bad_server_salt once or twice for a request. non-trivial = an expired salt is dropped or a duplicate/expired triple stored (a) / clock crosses a salt expiry or a bad-salt event (b); distinct by action list",
-    technique="model-based stateful PBT (rapid) + live connection against the reference peer on virtual time",
+    [T("TestC41Salts", 30000, 300000), T("TestC41SaltsParallel", 400, 4000, env={"GOMAXPROCS": "8"}), T("TestC41Conn", 10000, 80000, env=CONN)],
+    rule="(c) salts.Salts under real parallelism: 1..4 goroutines calling Get while 1..4 store drawn sets (expired, expiring at the deadline, valid, repeated), 1500 rounds each, a valid salt stored beforehand (non-trivial = a stale salt among the stored sets); (a) salts.Salts under store (fresh, re-sent identical triples, already expired, far future) / clock advance / reset / get with a fixed lookahead, against a map model; (b) a live connection: new_session_created salt, future_salts answers with overlapping / duplicated / expired windows, virtual sleeps up to 3 h, invokes, bad_server_salt once or twice for a request. non-trivial = an expired salt is dropped or a duplicate/expired triple stored (a) / clock crosses a salt expiry or a bad-salt event (b); distinct by action list",
+    technique="model-based stateful PBT (rapid) + live connection against the reference peer on virtual time + parallel stress with an invariant oracle (runtime-scheduled)",
     text="Get returns only salts valid beyond the deadline and fails only when none is; every client frame carries a salt the server told or a stored future salt valid beyond now+5min; bad_server_salt => exactly one re-send with the new salt; a second one fails the call.",
     note="Tolerated and counted: the client keeps a previously stored future salt when every stored salt has expired and the server told nothing newer (no valid salt exists then).")
 add("C43", "c_mtproto",
